@@ -23,7 +23,12 @@ class FakeNet:
         if self.set_cookie:
             hdr += f"Set-Cookie: sid=c{self.n}-{req.host}; Path=/\n"
         msg = email.message_from_string(hdr + "\n")
-        r = urllib.response.addinfourl(io.BytesIO(b"OK"), msg, req.full_url, 200)
+        body = b"OK"
+        if req.data and b"<PROFRQ>" in req.data:
+            # a profile request: answer with a profile that advertises this very URL for every service
+            from contracts.client_history import profile_bytes, T0
+            body = profile_bytes(T0, url=req.full_url)
+        r = urllib.response.addinfourl(io.BytesIO(body), msg, req.full_url, 200)
         r.msg = "OK"
         return r
 
@@ -34,20 +39,29 @@ def run_scenario(persist, set_cookie, seq):
     oh, os_ = urllib.request.HTTPHandler.http_open, urllib.request.HTTPSHandler.https_open
     urllib.request.HTTPHandler.http_open = lambda self, req: net.open(self, req)
     urllib.request.HTTPSHandler.https_open = lambda self, req: net.open(self, req)
+    import tempfile, shutil
+    from pathlib import Path
+    from ofxtools import config
+    tmp = tempfile.mkdtemp(prefix="verif-c14-")
+    olddir = config.DATADIR
+    config.DATADIR = Path(tmp) / "ofxtools"
     try:
-        clients = {c: OFXClient(f"https://bank-{c.lower()}.example/ofx", userid=f"user{c}", persist_cookies=persist, useragent=f"agent-{c}") for c in "AB"}
+        clients = {c: OFXClient(f"https://bank-{c.lower()}.example/ofx", userid=f"user{c}", org=f"ORG{c}", fid="1", persist_cookies=persist, useragent=f"agent-{c}") for c in "AB"}
         results = []
         for c, kind in seq:
             cl = clients[c]
             before = len(net.log)
-            if kind == "accounts":
-                r = cl.request_accounts(f"secret{c}", DT, skip_profile=True)
+            if kind == "full":
+                # with the profile look-up: a profile request, then the request itself (same host: the profile says so)
+                r = cl.request_accounts(f"secret{c}", DT)
             else:
                 r = cl.request_accounts(f"secret{c}", DT, dryrun=(kind == "dry"), skip_profile=True)
             results.append((c, kind, len(net.log) - before, r.read()))
         return net.log, results, {c: clients[c].url for c in clients}
     finally:
         urllib.request.HTTPHandler.http_open, urllib.request.HTTPSHandler.https_open = oh, os_
+        config.DATADIR = olddir
+        shutil.rmtree(tmp, ignore_errors=True)
 
 
 def check_scenario(it, fn, a):
@@ -62,6 +76,21 @@ def check_scenario(it, fn, a):
                 problems.append(f"dry run of {c} sent {nreq} requests")
             if not body.startswith((b"OFXHEADER", b"<?xml")):
                 problems.append("dry run did not return the request")
+            continue
+        if kind == "full":
+            # one profile request (cached afterwards: the scripted server sends the same date, so later calls ask again
+            # and are told the same) + the request itself; every one of them replays the newest cookie of this client
+            if nreq != 2:
+                problems.append(f"{c}: {nreq} requests for a call with profile look-up (expected 2)")
+            for _ in range(nreq):
+                r = log[li]; li += 1
+                expect = seen_cookie[c] if (persist and set_cookie) else None
+                if (r["cookie"] or None) != expect:
+                    problems.append(f"{c}: Cookie {r['cookie']!r}, expected {expect!r} (request {li} of the sequence)")
+                if r["headers"].get("user-agent") != f"agent-{c}":
+                    problems.append(f"{c}: user agent {r['headers'].get('user-agent')!r}")
+                if set_cookie:
+                    seen_cookie[c] = f"sid=c{li}-bank-{c.lower()}.example"
             continue
         if nreq != 1:
             problems.append(f"{c} sent {nreq} requests for one call")
@@ -88,7 +117,7 @@ def check_scenario(it, fn, a):
 def cases(tier):
     n = 4 if tier == "thorough" else 3
     out = []
-    steps = [(c, k) for c in "AB" for k in ("post", "dry")]
+    steps = [(c, k) for c in "AB" for k in ("post", "dry", "full")]
     for persist in (True, False):
         for sc in (True, False):
             for ln in range(1, n + 1):
@@ -105,6 +134,6 @@ class A_(Arg):
 CONTRACTS = [
     Contract("ofxtools.Client:OFXClient.post_request", args=[A_("persist"), A_("set_cookie"), A_("seq")], call=check_scenario,
              ensures=[("scenario-clean", "result == []")], cases=cases, native_only=True, shards=16,
-             notes="all request sequences of length <= 3 (4 in thorough) over two client instances x {post, dry run} x persist_cookies x cookie-setting server, on the real urllib opener with a fake transport",
+             notes="all request sequences of length <= 3 (4 in thorough) over two client instances x {post, dry run, post with profile look-up} x persist_cookies x cookie-setting server, on the real urllib opener with a fake transport and a scratch data directory",
              props=["C14"]),
 ]
